@@ -551,6 +551,8 @@ def _key(e: Entry, inp) -> tuple:
             return (e.name, json.dumps(inp, sort_keys=True, default=repr)[:4000])
         except Exception:  # noqa: BLE001
             return (e.name, repr(inp)[:4000])
+    if not isinstance(inp, (str, bytes, bytearray, memoryview, int, float, bool, type(None))):
+        return (e.name, repr(inp)[:4000])       # a Decimal, say: a signalling NaN cannot even be hashed
     return (e.name, inp)
 
 
